@@ -11,7 +11,13 @@ use geo::{Coord, CoordsIter, LineString, Polygon};
 
 fn is_inside(q: &Coord<f64>, p1: &Coord<f64>, p2: &Coord<f64>) -> bool {
     let r = (p2.x - p1.x) * (q.y - p1.y) - (p2.y - p1.y) * (q.x - p1.x);
-    r <= 0.0
+    // A point within rounding distance of the clip line counts as inside. The vertices are computed
+    // in f64 from rotated boxes, so edges that are collinear in exact arithmetic differ by noise of
+    // the order of ulp(coordinate); classifying such a vertex as outside makes the clipper intersect
+    // two parallel lines and return a garbage (or NaN) vertex.
+    let len = (p2.x - p1.x).abs().max((p2.y - p1.y).abs());
+    let mag = p1.x.abs().max(p1.y.abs()).max(q.x.abs()).max(q.y.abs()).max(len);
+    r <= len * mag * 1e-14
 }
 
 fn compute_intersection(
@@ -20,20 +26,27 @@ fn compute_intersection(
     s: &Coord<f64>,
     e: &Coord<f64>,
 ) -> Coord<f64> {
-    let dc = Coord {
-        x: cp1.x - cp2.x,
-        y: cp1.y - cp2.y,
+    // Point of the segment cp1 -> cp2 that lies on the line through s and e, computed from
+    // coordinate differences: cross products of absolute coordinates lose log10((|xy| / size)^2)
+    // digits, which nearly parallel edges amplify into a visibly wrong vertex.
+    let d1 = Coord {
+        x: cp2.x - cp1.x,
+        y: cp2.y - cp1.y,
     };
-    let dp = Coord {
-        x: s.x - e.x,
-        y: s.y - e.y,
+    let d2 = Coord {
+        x: e.x - s.x,
+        y: e.y - s.y,
     };
-    let n1 = cp1.x * cp2.y - cp1.y * cp2.x;
-    let n2 = s.x * e.y - s.y * e.x;
-    let n3 = 1.0 / (dc.x * dp.y - dc.y * dp.x);
+    let denom = d1.x * d2.y - d1.y * d2.x;
+    if denom == 0.0 {
+        return *cp2;
+    }
+    let t = ((s.x - cp1.x) * d2.y - (s.y - cp1.y) * d2.x) / denom;
+    // the end points straddle the clip line (up to the tolerance of `is_inside`)
+    let t = t.clamp(0.0, 1.0);
     Coord {
-        x: (n1 * dp.x - n2 * dc.x) * n3,
-        y: (n1 * dp.y - n2 * dc.y) * n3,
+        x: cp1.x + t * d1.x,
+        y: cp1.y + t * d1.y,
     }
 }
 
